@@ -1,8 +1,11 @@
 #!/bin/bash
-# apply a seeded patch to /repo, run the given checks (quick unless TIER set), undo.  usage: try_seed.sh <patch> <ID>...
+# apply a seeded patch to /repo, run the given checks (quick unless TIER set), undo; evidence files are restored.
+# usage: try_seed.sh <patch> <ID>...
 P=$1; shift
+rm -rf /verif/target/evidence.bak && cp -r /verif/evidence /verif/target/evidence.bak
 cd /repo && git apply $P || { echo "patch does not apply"; exit 2; }
 for id in "$@"; do
   ( cd /verif && ./check $id ${TIER:-quick} 2>&1 | grep -E "^\[|VIOLATION|KNOWN|MACHINERY" | cut -c1-420 | head -${LINES_MAX:-6} )
 done
 cd /repo && git checkout -- . && git status --short | head -3
+rm -rf /verif/evidence && mv /verif/target/evidence.bak /verif/evidence
